@@ -51,6 +51,8 @@ FUNCS = {
                                                 'Mahotas.cscalar_haar_x_eq_model', 'Mahotas.cscalar_haar_y_eq_model'],
                       words=['sumRectAccesses', 'csumRectAccesses', 'haarXAccesses', 'haarYAccesses', 'haarAccesses'],
                       defined_in='C10Surf.lean', targets=['sum_rect', 'csum_rect', 'haar_x', 'haar_y']),
+    'lbp_map': dict(tie=T + 'Lbp', theorems=['Mahotas.cscalar_roll_right_eq_model', 'Mahotas.cscalar_lbp_map_eq_model'],
+                    words=['rollRight32', 'lbpMap32', 'lbpMapLoop'], defined_in='C10Misc.lean', targets=['roll_right', 'lbp_map']),
 }
 THEOREMS = {f['tie']: list(f['theorems']) for f in FUNCS.values()}
 THEOREMS_BY_FUNCTION = {k: {f['tie']: list(f['theorems'])} for k, f in FUNCS.items()}
@@ -184,6 +186,16 @@ def _unit(srcs: dict) -> str:
                 s.append(f'extern "C" int cs_{k}(const long* dims, const long* a, long* out) {{ integral_image_type A; A.p = 0; A.n = 0; '
                          f'A.dims2[0] = dims[0]; A.dims2[1] = dims[1]; A.ntrace = 0; {call}; for (int i = 0; i < A.ntrace; ++i) out[i] = A.trace[i]; '
                          'return A.ntrace; }')
+    if 'roll_right' in have:
+        s.append('typedef uint32_t npy_uint32;')
+        s.append('namespace {')
+        for k in ('roll_right', 'lbp_map'):
+            if k in have:
+                s.append(srcs[k]['text'])
+        s.append('}')
+        s.append('extern "C" unsigned long cs_roll_right(unsigned long v, long points) { return roll_right((npy_uint32)v, (int)points); }')
+        if 'lbp_map' in have:
+            s.append('extern "C" unsigned long cs_lbp_map(unsigned long v, long points) { return map((npy_uint32)v, (int)points); }')
     if 'at_flat' in have or 'pos_to_flat' in have:
         s.append('template <typename BaseType> struct cs_array { bool is_carray_; BaseType* data_; int nd; npy_intp dims_[32]; npy_intp strides_[32];')
         s.append('  typedef numpy::position position;')
@@ -299,6 +311,10 @@ def _real_rows(case):
         for a, dims in case['rows']:
             n = f((ctypes.c_long * 2)(*dims), (ctypes.c_long * len(a))(*a), buf)
             out.append(';'.join(f'{buf[i]},{buf[i + 1]}' for i in range(0, n, 2)))
+    elif fn in ('roll_right', 'lbp_map'):
+        f = getattr(lib, 'cs_' + fn)
+        f.restype, f.argtypes = ctypes.c_ulong, [ctypes.c_ulong, ctypes.c_long]
+        out = [str(f(v, pts)) for v, pts in case['rows']]
     elif fn == 'pos_to_flat':
         f = lib.cs_pos_to_flat
         f.restype = ctypes.c_long
@@ -482,7 +498,21 @@ def _cases_surf(rng, tier):
     return out
 
 
+def _cases_lbp(rng, tier):
+    n = dict(quick=1500, thorough=30000, search=10000)[tier]
+    out = []
+    for fn in ('roll_right', 'lbp_map'):
+        rows = [[v, pts] for pts in range(1, 33) for v in (0, 1, 2, 3, (1 << pts) - 1, 1 << (pts - 1), 5 % (1 << pts))]
+        for _ in range(n):
+            pts = rng.choice([rng.randint(1, 32), 4, 8, 12, 16, 24, 32])
+            v = rng.choice([rng.getrandbits(pts), rng.getrandbits(32), 2 ** 32 - 1])
+            rows.append([v, pts])
+        out.append(dict(fn=fn, rows=rows, src='boundary'))
+    return out
+
+
 GENERATORS = {
+    'lbp_map': _cases_lbp,
     'surf_rect': _cases_surf,
     'convex': _cases_convex,
     'at_flat': _cases_at_flat,
